@@ -54,9 +54,9 @@ type delivery struct {
 }
 
 type c14State struct {
-	mu        sync.Mutex
-	scripts   []subScript
-	attempts  map[string]map[hash.SHA256Hash]int
+	mu       sync.Mutex
+	scripts  []subScript
+	attempts map[string]map[hash.SHA256Hash]int
 	// exempt: the subscriber answered this event with an "unknown JSON-LD context" error at least once. The start-up
 	// replay deliberately skips events whose stored error is that one (issue #2569), so they are not judged for
 	// replay and completion; every other event still is.
@@ -388,6 +388,45 @@ func c14Body(s *simkit.Sim, rc *simkit.RunCtx) {
 	}
 	if s.Failed() {
 		return
+	}
+	// A private transaction arrives without its payload; the payload arrives later, as from a participant answering a payload
+	// query (State.WritePayload). Its content is new, or equal to the payload of an earlier transaction: the payload event of
+	// THIS transaction is still owed to the subscribers.
+	if !lateRecovery && !budgetEdge && !h.node().Inc.Dead() && s.D.Decide("late-private-payload", 3) == 2 {
+		valid := h.corpus.Valid
+		payload := []byte(fmt.Sprintf("late-private-payload-%d", rc.Run))
+		how := "new-content"
+		if s.D.Decide("late-payload-equals-earlier", 2) == 1 {
+			for i := len(valid) - 1; i > 0; i-- {
+				if valid[i].Payload != nil && !valid[i].Root {
+					payload, how = valid[i].Payload, "content-of-earlier-transaction"
+					break
+				}
+			}
+		}
+		// on top of a transaction the node has
+		var top *world.CTx
+		for i := len(valid) - 1; i >= 0 && top == nil; i-- {
+			if ok, _ := h.node().State().IsPresent(context.Background(), valid[i].Ref); ok {
+				top = valid[i]
+			}
+		}
+		if top != nil {
+			pal := dag.EncryptedPAL{[]byte("opaque-participant-list-entry-1"), []byte("opaque-participant-list-entry-2")}
+			t := h.corpus.SignValid([]*world.CTx{top}, payload, []string{"foo/bar", "foo/baz"}[s.D.Decide("late-ptype", 2)], h.corpus.Keys[0], pal)
+			var err1, err2 error
+			s.Do("late-private-payload", time.Minute, func() {
+				err1 = h.node().State().Add(context.Background(), t.Tx, nil)
+				if err1 == nil {
+					err2 = h.node().State().WritePayload(context.Background(), t.Tx, t.Tx.PayloadHash(), payload)
+				}
+			})
+			if err1 != nil || err2 != nil {
+				s.Fail("C14.harness", "late-private-payload", "Add: %v, WritePayload: %v", err1, err2)
+				return
+			}
+			s.Probes.Inc("private-transaction-payload-written-later:" + how)
+		}
 	}
 	// faults have stopped: let the retry schedules run (10 retries take about 17 virtual minutes)
 	if lateRecovery {
